@@ -152,13 +152,19 @@ class TaskFactory:
         """
         task_handle = TaskHandle(name=name or callable_name(func))
         self._tasks.add(task_handle)
-        task_handle.start_value = await self._task_group.start(
-            self._run_background_task,
-            func,
-            task_handle,
-            self.exception_handler,
-            name=task_handle.name,
-        )
+        try:
+            task_handle.start_value = await self._task_group.start(
+                self._run_background_task,
+                func,
+                task_handle,
+                self.exception_handler,
+                name=task_handle.name,
+            )
+        except BaseException:
+            # The task is not running (any more), so it must not be listed either
+            self._tasks.discard(task_handle)
+            raise
+
         return task_handle
 
     def start_task_soon(
@@ -180,13 +186,19 @@ class TaskFactory:
         """
         task_handle = TaskHandle(name=name or callable_name(func))
         self._tasks.add(task_handle)
-        self._task_group.start_soon(
-            self._run_background_task,
-            func,
-            task_handle,
-            self.exception_handler,
-            name=task_handle.name,
-        )
+        try:
+            self._task_group.start_soon(
+                self._run_background_task,
+                func,
+                task_handle,
+                self.exception_handler,
+                name=task_handle.name,
+            )
+        except BaseException:
+            # The task could not be started, so it must not be listed either
+            self._tasks.discard(task_handle)
+            raise
+
         return task_handle
 
     async def _run_background_task(
